@@ -8,6 +8,7 @@ CONSTANTS
   ParentKill = TRUE
   ClearFirst = FALSE
   NarrowExcept = FALSE
+  NoAckWait = FALSE
 INVARIANT TypeOK
 INVARIANT Inv_Reaped
 INVARIANT Inv_ParentsKnow
